@@ -7,7 +7,8 @@ Jobs:
                                   flatten_bundles.replace_bundle_inst, arrays.ArrayFlattener.elaborate_module,
                                   inst_bundles.elaborate_instance_bundle) with, per object added to a Module while the site
                                   runs: the flatname call that produced its name (segments, the keys of `avoid`, maxlen,
-                                  result) and the keys of the Module namespace just before the insertion.
+                                  result), the keys of the Module namespace and the keys of each per-type container
+                                  (ports, signals, instances, instarrays, instbundles, bundles) just before the insertion.
   {"kind":"flatname","segs":[..],"avoid":[..]|None,"maxlen":k}   direct call of ElabPass.flatname
 
 Extended design (superset of harness/impl/designlib.py):
@@ -65,8 +66,11 @@ def install_hooks():
         def _add(module, val):
             if STACK:
                 s = STACK[-1]
+                # the Module as the code holds it: the namespace AND the per-type containers (what `_add` deletes from)
+                ctr = {c: [str(k) for k in getattr(module, c).keys()]
+                       for c in ("ports", "signals", "instances", "instarrays", "instbundles", "bundles")}
                 s["events"].append(dict(flat=s.get("pending"), added=val.name, kind=type(val).__name__,
-                                        ns=[str(k) for k in module.namespace.keys()], mod=module.name))
+                                        ns=[str(k) for k in module.namespace.keys()], ctr=ctr, mod=module.name))
                 s["pending"] = None
             return orig_add(module=module, val=val)
         hmod._add = _add
